@@ -279,21 +279,30 @@ def OutputReader.fillOneBlock (r : OutputReader) (want : Nat) : List UInt8 × Ou
 def xofMany (o : Node) (t n : Nat) : List UInt8 :=
   (List.range n).flatMap fun i => bytesOfWords (rootBlock K o (t + i))
 
+/-- first part of `fill`: if we are partway through a block, get to the block boundary -/
+def OutputReader.fillFirst (r : OutputReader) (n : Nat) : List UInt8 × OutputReader × Nat :=
+  if r.pwb ≠ 0 then
+    let o := r.fillOneBlock K n
+    (o.1, o.2, n - o.1.length)
+  else ([], r, n)
+
+/-- middle part: whole blocks through `xof_many` -/
+def OutputReader.fillMiddle (r : OutputReader) (n : Nat) : List UInt8 × OutputReader × Nat :=
+  if 0 < n / 64 then
+    (xofMany K r.inner r.inner.t (n / 64), { r with inner := { r.inner with t := r.inner.t + n / 64 } }, n - n / 64 * 64)
+  else ([], r, n)
+
+/-- last part: a final partial block -/
+def OutputReader.fillLast (r : OutputReader) (n : Nat) : List UInt8 × OutputReader :=
+  if 0 < n then r.fillOneBlock K n else ([], r)
+
 /-- `OutputReader::fill` for a buffer of `n` bytes -/
 def OutputReader.fill (r : OutputReader) (n : Nat) : List UInt8 × OutputReader :=
   if n = 0 then ([], r) else
-  let (out1, r, n) := if r.pwb ≠ 0 then
-      let (o, r') := r.fillOneBlock K n
-      (o, r', n - o.length)
-    else ([], r, n)
-  let full := n / 64
-  let (out2, r, n) := if 0 < full then
-      (xofMany K r.inner r.inner.t full, { r with inner := { r.inner with t := r.inner.t + full } }, n - full * 64)
-    else ([], r, n)
-  if 0 < n then
-    let (o, r') := r.fillOneBlock K n
-    (out1 ++ out2 ++ o, r')
-  else (out1 ++ out2, r)
+  let p1 := r.fillFirst K n
+  let p2 := p1.2.1.fillMiddle K p1.2.2
+  let p3 := p2.2.1.fillLast K p2.2.2
+  (p1.1 ++ p2.1 ++ p3.1, p3.2)
 
 def OutputReader.position (r : OutputReader) : Nat := r.inner.t * 64 + r.pwb
 
